@@ -2121,6 +2121,25 @@ class LogicalFile:
         self._check_completeness()
         self._check_channels_assigned_to_frames()
         self._check_defining_origin_params()
+        self._check_sets_not_shared()
+
+    def _check_sets_not_shared(self) -> None:
+        """Check that none of the sets of this logical file also holds the objects of another logical file.
+
+        Sets are identified, throughout the DLIS file, by their type and name; objects added to different logical files
+        with the same set name (e.g. the default one) land in one set, which would be written to all these files.
+        """
+
+        for other in self.physical_file.logical_files:
+            if other is self:
+                continue
+            for set_type, set_dict in self._eflr_sets.items():
+                for set_name, eflr_set in set_dict.items():
+                    if eflr_set.n_items and other._eflr_sets.get(set_type, {}).get(set_name) is eflr_set:
+                        raise RuntimeError(
+                            f"{eflr_set} is shared between two logical files; "
+                            f"please specify a different 'set_name' for the objects of each logical file"
+                        )
 
     def _check_defining_origin_params(self) -> None:
         """Check that the file_id of the defining origin is the same as the ID of the header."""
